@@ -70,8 +70,8 @@ const (
 	OpBvUle
 	OpBvSlt
 	OpBvSle
-	OpZext   // P = extra bits
-	OpSext   // P = extra bits
+	OpZext    // P = extra bits
+	OpSext    // P = extra bits
 	OpExtract // P = hi, Q = lo
 	OpConcat
 	OpFpAdd
@@ -187,27 +187,45 @@ func (t *Term) IsTrue() bool  { return t.Op == OpConst && t.S.K == KBool && t.Va
 func (t *Term) IsFalse() bool { return t.Op == OpConst && t.S.K == KBool && t.Val == 0 }
 
 type Store struct {
-	tab  map[string]*Term
+	tab  map[termKey]*Term
 	next int
 	Vars []*Term
 }
 
-func NewStore() *Store { return &Store{tab: map[string]*Term{}} }
+func NewStore() *Store { return &Store{tab: map[termKey]*Term{}} }
+
+type termKey struct {
+	op         Op
+	k          Kind
+	w          int
+	val        uint64
+	name       string
+	p, q       int
+	n          int
+	a0, a1, a2 int
+}
 
 func (s *Store) intern(t *Term) *Term {
-	var b strings.Builder
-	fmt.Fprintf(&b, "%d|%d|%d|%d|%s|%d|%d", t.Op, t.S.K, t.S.W, t.Val, t.Name, t.P, t.Q)
-	for _, a := range t.Args {
-		fmt.Fprintf(&b, "|%d", a.ID)
+	if len(t.Args) > 3 {
+		panic("term with more than 3 arguments")
 	}
-	k := b.String()
-	if x, ok := s.tab[k]; ok {
+	key := termKey{op: t.Op, k: t.S.K, w: t.S.W, val: t.Val, name: t.Name, p: t.P, q: t.Q, n: len(t.Args), a0: -1, a1: -1, a2: -1}
+	if len(t.Args) > 0 {
+		key.a0 = t.Args[0].ID
+	}
+	if len(t.Args) > 1 {
+		key.a1 = t.Args[1].ID
+	}
+	if len(t.Args) > 2 {
+		key.a2 = t.Args[2].ID
+	}
+	if x, ok := s.tab[key]; ok {
 		return x
 	}
 	t.ID = s.next
 	s.next++
 	t.mb = computeMB(t)
-	s.tab[k] = t
+	s.tab[key] = t
 	if t.Op == OpVar {
 		s.Vars = append(s.Vars, t)
 	}
@@ -353,81 +371,7 @@ func (s *Store) bin(op Op, a, b *Term) *Term {
 		panic(fmt.Sprintf("sort mismatch in %v: %v vs %v", opName[op], a.S, b.S))
 	}
 	if a.IsConst() && b.IsConst() {
-		x, y := a.Val, b.Val
-		var r uint64
-		switch op {
-		case OpBvAdd:
-			r = x + y
-		case OpBvSub:
-			r = x - y
-		case OpBvMul:
-			r = x * y
-		case OpBvAnd:
-			r = x & y
-		case OpBvOr:
-			r = x | y
-		case OpBvXor:
-			r = x ^ y
-		case OpBvUDiv:
-			if y == 0 {
-				r = mask(w)
-			} else {
-				r = x / y
-			}
-		case OpBvURem:
-			if y == 0 {
-				r = x
-			} else {
-				r = x % y
-			}
-		case OpBvSDiv:
-			sx, sy := signed(x, w), signed(y, w)
-			if sy == 0 {
-				if sx >= 0 {
-					r = mask(w)
-				} else {
-					r = 1
-				}
-			} else if sy == -1 {
-				r = uint64(-sx)
-			} else {
-				r = uint64(sx / sy)
-			}
-		case OpBvSRem:
-			sx, sy := signed(x, w), signed(y, w)
-			if sy == 0 {
-				r = x
-			} else if sy == -1 {
-				r = 0
-			} else {
-				r = uint64(sx % sy)
-			}
-		case OpBvShl:
-			if y >= uint64(w) {
-				r = 0
-			} else {
-				r = x << y
-			}
-		case OpBvLshr:
-			if y >= uint64(w) {
-				r = 0
-			} else {
-				r = x >> y
-			}
-		case OpBvAshr:
-			sx := signed(x, w)
-			if y >= uint64(w) {
-				if sx < 0 {
-					r = mask(w)
-				} else {
-					r = 0
-				}
-			} else {
-				r = uint64(sx >> y)
-			}
-		default:
-			panic("bin const")
-		}
+		r := FoldBin(op, a.Val, b.Val, w)
 		return s.Const(w, r)
 	}
 	// identities
@@ -832,4 +776,83 @@ func (t *Term) OpName() string {
 		return "extract"
 	}
 	return fmt.Sprintf("op%d", t.Op)
+}
+
+// FoldBin evaluates a binary bit-vector operation on constants (SMT-LIB semantics).
+func FoldBin(op Op, x, y uint64, w int) uint64 {
+	var r uint64
+	switch op {
+	case OpBvAdd:
+		r = x + y
+	case OpBvSub:
+		r = x - y
+	case OpBvMul:
+		r = x * y
+	case OpBvAnd:
+		r = x & y
+	case OpBvOr:
+		r = x | y
+	case OpBvXor:
+		r = x ^ y
+	case OpBvUDiv:
+		if y == 0 {
+			r = mask(w)
+		} else {
+			r = x / y
+		}
+	case OpBvURem:
+		if y == 0 {
+			r = x
+		} else {
+			r = x % y
+		}
+	case OpBvSDiv:
+		sx, sy := signed(x, w), signed(y, w)
+		if sy == 0 {
+			if sx >= 0 {
+				r = mask(w)
+			} else {
+				r = 1
+			}
+		} else if sy == -1 {
+			r = uint64(-sx)
+		} else {
+			r = uint64(sx / sy)
+		}
+	case OpBvSRem:
+		sx, sy := signed(x, w), signed(y, w)
+		if sy == 0 {
+			r = x
+		} else if sy == -1 {
+			r = 0
+		} else {
+			r = uint64(sx % sy)
+		}
+	case OpBvShl:
+		if y >= uint64(w) {
+			r = 0
+		} else {
+			r = x << y
+		}
+	case OpBvLshr:
+		if y >= uint64(w) {
+			r = 0
+		} else {
+			r = x >> y
+		}
+	case OpBvAshr:
+		sx := signed(x, w)
+		if y >= uint64(w) {
+			if sx < 0 {
+				r = mask(w)
+			} else {
+				r = 0
+			}
+		} else {
+			r = uint64(sx >> y)
+		}
+	default:
+		panic("FoldBin: not a binary bit-vector op")
+	}
+	return r & mask(w)
 }
